@@ -233,7 +233,7 @@ def who_calls(cx, pats, allowed, what, key_prefix, minimum=1, ignore_tests=True)
 def field_writes(f, owner_suffix, field):
     """all statements / calls that write (assign or take &mut of) the struct field"""
     res = []
-    for b in f.bodies.values():
+    for b in f.scan_bodies():
         for i, j, lhs, rv, line in b.assigns():
             for p in lhs[1:]:
                 if isinstance(p, list) and p[0] == "f" and p[2] == field and last_seg(p[3]) == owner_suffix:
